@@ -6,7 +6,12 @@ documented grammar (``a*E, E*a, E/a, E+a, a+E, E-a, a-E, v*E, E*v, E+v, v+E, E-v
 E**n, E+F, E-F, E*F, E@F, a@E, E@a, v@E, E@v, OperatorPointwiseProduct(E, F)``) with every
 scalar / vector / leaf of the pool as the other operand.  Pool: 35 leaves on rn(3), rn(2),
 cn(2), between them and on the field R (linear, nonlinear, Functional and plain field-valued
-operators), scalars {2, -1, 1/2, 0, 1j}, two vectors per space.  Quick: every expression of
+operators), scalars {2, -1, 1/2, 0, 1j}, two vectors per space.  On top of every child also the
+*extended scalars* (magnitude regimes 2^-30, 2^30, 1 + 2^-20, 2^-30 j; NumPy scalar types
+np.float64 / np.int64 / np.complex128 incl. a typed zero) in all scalar forms; a*E, E*a, E/a
+with 2^-30 and 2^30 are children themselves, so a tiny factor is undone / merged by the
+enclosing application.  Two leaves hand back their argument out-of-place (`RealPart` on a real
+space: ``x`` itself; `SharedView`, harness-defined: a new element on the memory of ``x``).  Quick: every expression of
 size <= 2 over the full pool; thorough: also every expression of size 3 over a reduced pool.  Typing is decided by the reference type system
 (`mc/ref/opalgebra.py`) from domain / range / field as the docstrings of the overloads state
 it; nothing is sampled.
@@ -222,7 +227,7 @@ def site_of(e, env, pre):
             ks.append(kind(build(c, env, pre)))
         except Exception:
             ks.append('?')
-    return '%s[%s]%s' % (A.overload(e), ','.join(ks), A.marker(e))
+    return '%s[%s%s]%s' % (A.overload(e), ','.join(ks), A.scalar_regime(e), A.marker(e))
 
 
 def _show(a):
@@ -294,6 +299,11 @@ def check(e, env, pre=None):
         tr = A.new_track()
         ref = A.ref_eval(e, p, tr)
         refa = np.asarray(ref)
+        if not (np.all(np.isfinite(refa)) and np.isfinite(tr[0])):
+            # over- / underflow to Inf / NaN in the reference: no NaN / Inf among the operands
+            rec['oop'].append(None)
+            rec['inp'].append(None)
+            continue
         x = env.point(dom, p)
         ptxt = 'x = %s; ' % _show(p)
         # out-of-place
@@ -771,6 +781,10 @@ def trace_functions():
 def meta(tier):
     full, red = A.FULL, A.REDUCED
     b = {'leaves': full['leaves'], 'scalars': full['scalars'], 'vectors': full['vecs'],
+         'extended scalars (roots over every child; all scalar forms but the @ synonyms)':
+             dict((k, A.SCALAR_SRC[k]) for k in full['xscalars']),
+         'extended scalars forming children a*E, E*a, E/a': full['xchild'],
+         'leaves returning their argument / a view of it out-of-place': ['Re3', 'View3'],
          'powers': full['pows'], 'size(full pool)': 2,
          'points per expression': 'x1, x2, x1+x2, 0 of the domain; out-of-place and in-place; '
                                   'x1, x2 also in-place with out aliased to the input when '
@@ -832,6 +846,14 @@ def meta(tier):
             'that are Functional instances although the field of their domain differs from '
             'their range (f * A with A from a space over the other field: contradicts the '
             'definition of Functional)',
+            'extended scalars: nonzero scalars of tiny / huge magnitude and close to 1 are '
+            'ordinary members of the field (the zero arms are documented for a == 0 only); NumPy '
+            'scalars are members of the field (`np.float64(2.0) in RealNumbers()`), np.float32 is '
+            'not enumerated (single-precision products are NumPy semantics the documentation does '
+            'not address); values compared with the same rule as everything else, so a result '
+            'scaled by 2^-30 is resolved to ~1e-3 relative by the plain comparison and fully by '
+            'the enclosing expressions that undo the factor (2^30 * (2^-30 * E), (E * 2^-30) / '
+            '2^-30, ...)',
             'exact equality is demanded when every intermediate value of the reference '
             'evaluation is a multiple of 2^-12 of magnitude < 2^12 (products of two such numbers '
             'need <= 48 bits, so no rounding can occur whatever the association order; the '
